@@ -10,45 +10,45 @@ PIPE_NOTE = ("Trusted base: TLC 1.8, the independent RTF reader (harness/rtfread
 
 CLAIMED = {
  "C02": ("5 C02", "TLC model checking of spec/Pipeline.tla + TLC trace validation (spec/PipeTrace.tla) of encodes read back by an independent RTF reader",
-         "Every scenario TLC generates (all strategies, small tables exhaustively, large ones by -simulate) is encoded by the real rtf_encode(), read back, and TLC checks on each trace that the body rows are exactly the input rows in order with the input's display texts (tagged and random texts incl. nulls, ints, floats, blanks)."),
+         "Every scenario TLC generates (all strategies, small tables exhaustively, large ones by -simulate) is encoded by the real rtf_encode(), read back, and TLC checks on each trace that the body rows are exactly the input rows in order with the input's display texts (tagged and random texts incl. nulls, ints, floats, blanks; optionally after a sibling / shadow document encoded by the same process)."),
  "C03": ("5 C03", "TLC model checking (intended and as-implemented design) + TLC trace validation of the row budget on real encodes; the intended rule additionally as an inductive invariant over unbounded integers (spec/BudgetInd.tla, Apalache)",
-         "The budget invariant is model-checked on the intended design and, modulo the recorded findings, on the as-implemented design; every generated scenario is replayed through rtf_encode() and TLC sums, page by page, header, heading, data (independent line lower bound at the cell's own font) and table footnote/source rows."),
+         "The budget invariant is model-checked on the intended design and, modulo the recorded findings, on the as-implemented design; every generated scenario is replayed through rtf_encode() and TLC sums, page by page, header, heading, data (independent line lower bound at the cell's own font) and table footnote/source rows; row heights from text cells, numeric cells and wrapping group_by labels."),
  "C04": ("5 C04", "TLC model checking of the online pagination machine + TLC trace validation incl. the two-run prefix relation; spec/FindBreaks.tla (public find_page_breaks) model-checked and replayed on the real method",
          "Break-only-when-required, forced breaks, non-empty contiguous pages and no-mix are invariants of the model and are evaluated by TLC on the page membership read back from real encodes; prefix stability is checked by encoding every prefix of sampled tables."),
  "C05": ("5 C05", "TLC model checking + TLC trace validation of heading placement on real encodes",
          "For 1-3 page_by levels, subline_by, dividers, every new_page/pageby_row/pageby_header choice TLC checks on every trace that the headings immediately before each data row are exactly the expected ones and that no heading is stranded."),
  "C06": ("5 C06", "TLC model checking + TLC trace validation of component placement and page-break geometry on real encodes",
-         "Placement of title/subline/column headers/footnote/source per page, block order, break geometry against the configured inches x 1440 (portrait, landscape, A4, custom), and header/footer destination counts, judged by TLC on traces of real encodes."),
+         "Placement of title/subline/column headers/footnote/source per page, block order, break geometry against the configured inches x 1440 (portrait, landscape, A4, custom), and header/footer destination counts (one- and multi-line page header / footer), judged by TLC on traces of real encodes."),
  "C07": ("5 C07", "TLC model checking of the border hierarchy + TLC trace validation of every row's borders read back from real encodes",
          "The five border clauses are invariants of the model (branch-by-branch transcription of the border pass) and are evaluated by TLC on the \\clbrdr* of every table row of every page of real encodes, with distinguishable styles per setting."),
  "C08": ("5 C08", "TLC trace validation (integer cross-multiplied proportionality) of \\cellx read back from real encodes of TLC-generated scenarios",
-         "Right edge, proportional boundaries within one twip, header alignment and single-cell spanning rows are evaluated by TLC on the cell boundaries of every table row, for 1..12 columns, removal of group columns at any position, four width patterns, four header modes and three paper sizes."),
- "C09": ("5 C09", "TLC model checking of spec/CellFormat.tla + TLC trace validation (spec/CellTrace.tla) of every data cell's format read back from paginated and unpaginated encodes; spec/Broadcast.tla (recycling algebra) model-checked and every behaviour replayed on the real BroadcastValue",
+         "Right edge, proportional boundaries within one twip, header alignment and single-cell spanning rows are evaluated by TLC on the cell boundaries of every table row, for 1..12 columns, removal of group columns at any position, six width patterns (incl. widths written for the displayed columns only), four header modes, three paper sizes, documents constructed on another page object."),
+ "C09": ("5 C09", "TLC model checking of spec/CellFormat.tla + TLC trace validation (spec/CellTrace.tla) of every data cell's format read back from paginated and unpaginated encodes; spec/Broadcast.tla (recycling algebra) model-checked and every behaviour replayed on the real BroadcastValue; spec/ParaFormat.tla (per-line attribute patterns of the paragraph-rendered text components) model-checked and every behaviour replayed on the real components",
          "For each of the 27 body attributes, in scalar / per-column / matrix shape, TLC generates tables, page splits and removed-column positions; the real encode is read back and TLC checks every data cell against the value the attribute specifies for its original (row, column), and against the unpaginated rendering of the same table."),
  "C13": ("5 C13", "TLC model checking of spec/GroupBy.tla + TLC trace validation (spec/GroupTrace.tla) of group_by columns read back from real encodes",
-         "All key sequences over {a,b,null} up to length 4-6 (1-2 levels) exhaustively, longer ones with 1-3 levels by simulation: TLC checks the blanking rule per observed row (with the observed page structure), untouched other columns, fill-down, and ValueError iff non-contiguous."),
+         "All key sequences over {a,b,null} up to length 4-6 (1-2 levels) exhaustively, longer ones with 1-3 levels by simulation, with colliding key spellings and group_by columns stored in reverse order: TLC checks the blanking rule per observed row (with the observed page structure), untouched other columns, fill-down, and ValueError iff non-contiguous."),
  "C12": ("5 C12", "TLC model checking of spec/ColorCtx.tla and spec/ColorDoc.tla + TLC trace validation (spec/ColorTrace.tla) of every colour and font reference read back from real encodes",
-         "Each of the 657 named colours on a body cell (exhaustive), all encoding paths x component modes (exhaustive) and random palettes of 1..8 colours on random components as text/background/border colour with the 10 fonts: TLC checks that every \\cf/\\chcbpat/\\brdrcf index names the document's own table entry with the requested RGB and every \\fN the requested font."),
+         "Each of the 657 named colours on a body cell (exhaustive), all encoding paths x component modes (exhaustive) and random palettes of 1..8 colours on random components (documents of one and of 17+ pages) as text/background/border colour with the 10 fonts: TLC checks that every \\cf/\\chcbpat/\\brdrcf index names the document's own table entry with the requested RGB and every \\fN the requested font."),
  "C14": ("5 C14", "TLC model checking of operation histories (spec/ColorHist.tla over spec/ColorCtx.tla) + TLC trace validation (spec/HistTrace.tla) of histories executed in forked children",
          "TLC enumerates all histories up to the exhaustive length over a pool of 20 documents (two families sharing an RTFBody) (and simulates length-4 ones); each is executed in a forked child of an import-only parent and TLC checks, per operation, that the output digest equals the one from a fresh interpreter, that ValueError is raised exactly by the failing document, and that the caller's DataFrame is unchanged."),
- "C15": ("5 C15", "TLC model checking of all thread interleavings (spec/ColorCtx.tla), TLC-generated schedules replayed on real threads with a settrace gate, single preemption at every library call boundary, conformance of recorded colour events (spec/CtxTrace.tla)",
+ "C15": ("5 C15", "TLC model checking of all thread interleavings (spec/ColorCtx.tla), TLC-generated schedules replayed on real threads with a settrace gate, single preemption at every library call boundary (warm, fresh-process and saturated-process families; thread pairs sharing caller-owned components), nested two-preemption schedules, conformance of recorded colour events (spec/CtxTrace.tla)",
          "All interleavings of 2 and 3 encoder processes are model-checked; every sampled TLC schedule of colour-context steps is replayed on real threads; thread A is preempted at every distinct library function call (thorough: every call instance) with thread B run to completion, plus sampled 2-3 preemptions with 3 threads; TLC judges that each thread's output equals its output alone and that the recorded colour events are a behaviour of the per-thread-context specification."),
- "C17": ("5 C17", "TLC model checking of spec/Assemble.tla (files as classified lines) + TLC trace validation (spec/AssembleTrace.tla) of assembled files read back",
+ "C17": ("5 C17", "TLC model checking of spec/Assemble.tla (files as classified lines) + TLC trace validation (spec/AssembleTrace.tla) of assembled files read back, incl. environments (output aliasing an input, stale output, re-run, twin inputs, a failed or unrelated previous call of the process)",
          "All argument lists of up to 2-3 inputs over table/figure x colour x header/footer x 1-2 pages (exhaustive), lists with missing files, simulated lists of up to 6 inputs incl. landscape: the files are written by write_rtf, assembled by assemble_rtf, read back, and TLC checks well-formedness, page-by-page equality with the concatenated inputs, restated geometry at each input's first page, single-input identity, empty list and missing file behaviour."),
  "C18": ("5 C18", "TLC model checking of spec/Export.tla (fault points x converter outcomes x target states x writers) + TLC trace validation (spec/ExportTrace.tla) of file-system events and before/after snapshots of real exports with injected faults (exceptions at call boundaries, OSError at file-system operations), stub converters and the real LibreOfficeConverter driving a fake program; spec/Converter.tla + spec/ConvTrace.tla validate the program's own invocation log",
-         "Every scenario TLC enumerates is executed: converter stubs for all outcomes, targets absent/existing/in a missing directory, and a BaseException or Exception raised at the first instance of every distinct library call site (thorough: 2500 sampled call instances, all writers); TLC checks that a failure leaves the target bytes, its directory listing and the temporary directory unchanged, that a success puts exactly the expected bytes (and the HTML resource folder) at the target, and that the target is touched only by the final step."),
+         "Every scenario TLC enumerates is executed: converter stubs for all outcomes, targets absent/existing/in a missing directory/home-relative (~), the working directory watched for debris, and a BaseException or Exception raised at the first instance of every distinct library call site (thorough: 2500 sampled call instances, all writers); TLC checks that a failure leaves the target bytes, its directory listing and the temporary directory unchanged, that a success puts exactly the expected bytes (and the HTML resource folder) at the target, that the target is touched only by the final step, and that an export in which nothing was made to fail completes."),
  "C10": ("5 C10", "TLC model checking of spec/UniEsc.tla (escape -> write -> read per code-point class and text position) + TLC trace validation (spec/UniTrace.tla) of files written by write_rtf and decoded from their bytes",
-         "Class representatives x 12 text positions x conversion on/off (TLC-enumerated), random mixed strings, and a code-point sweep through body cells (quick: boundaries +-64 and 30 000 sampled; thorough: every scalar value except C0/C1 controls): TLC checks that the reader decodes exactly the input, that every \\u argument is within -32768..32767 and is followed by exactly uc fallback characters."),
+         "Class representatives x 12 text positions x conversion on/off (TLC-enumerated), random mixed strings, homogeneous whole texts (Python string predicates), and a code-point sweep through body cells (quick: boundaries +-64 and 30 000 sampled; thorough: every scalar value except C0/C1 controls): TLC checks that the reader decodes exactly the input, that every \\u argument is within -32768..32767 and is followed by exactly uc fallback characters."),
  "C11": ("5 C11", "TLC model checking of the documented scanner (spec/TextScan.tla, spec/TextConv.tla) + trace validation (spec/TextTrace.tla): the scanner consumes the reader's events of the rendered run action by action",
-         "All abstract strings up to length 3 (thorough 4) over an 18-symbol alphabet in both modes (TLC, exhaustive) and longer simulated ones, each of the 682 table commands in 6 (thorough 40) context templates, probe strings in every component kind with default and overridden text_convert, per-cell text_convert: the real rendering is read back and TLC replays the documented scanner against the reader's events."),
+         "All abstract strings up to length 3 (thorough 4) over an 18-symbol alphabet in both modes (TLC, exhaustive) and longer simulated ones, each of the 682 table commands in 6 (thorough 40) context templates, probe strings in every component kind with default and overridden text_convert, per-cell text_convert incl. twin cells (same text, conversion on / off): the real rendering is read back and TLC replays the documented scanner against the reader's events."),
  "C16": ("5 C16", "TLC model checking of spec/Figure.tla + TLC trace validation (spec/FigTrace.tla) of figure documents read back (picture type, pixel and display dimensions, hex payload decoded)",
-         "TLC generates figure documents (1..6 figures, width/height lists of any length, caption presence and placement); image files are random bytes with valid PNG/JPEG headers of random dimensions or EMF blobs, with payload sizes around the hex line boundary; TLC checks one picture per page in order, type, pixel size from the image header, display size = inches x 1440 with positional reuse of the last value, byte-exact payload (<=512 bytes byte by byte, larger by length+SHA-1) and captions per placement option."),
+         "TLC generates figure documents (1..6 figures, width/height lists of any length, caption presence and placement); image files are random bytes with valid PNG/JPEG headers of random dimensions (PNG up to 2^31-1, boundaries of the 16-bit range) or EMF blobs, with payload sizes around the hex line boundary; TLC checks one picture per page in order, type, pixel size from the image header, display size = inches x 1440 with positional reuse of the last value, byte-exact payload (<=512 bytes byte by byte, larger by length+SHA-1) and captions per placement option."),
  "C19": ("5 C19", "TLC enumeration of the decision table (spec/Validate.tla) with one implementation test per row + TLC trace validation (spec/ValTrace.tla) of the exception class of every construction attempt",
          "Every row class x validated field x shape (scalar, vector, matrix) x position of the bad value is enumerated by TLC (693 rows) and concretised with 3 (thorough 25) random invalid values mixed with valid ones; TLC checks that each attempt raised ValueError (FileNotFoundError for a missing figure) and that the control construction with the valid value is accepted."),
  "C20": ("5 C20", "TLC-generated measurement histories (spec/StrWidth.tla) executed on get_string_width + TLC trace validation (spec/WidthTrace.tla) with widths logged exactly in 1/64 px",
-         "All histories up to 1 (thorough 2) characters over font x size x character class x unit x dpi plus unsupported font/unit, and 2 000 (thorough 100 000) simulated histories up to 14 characters: TLC checks zero/non-negative/monotone widths per appended character, number-vs-name equality, the monospace law, size scaling within 1 % (integer cross-multiplied), unit conversions within float rounding, and ValueError for unsupported arguments."),
- "C01": ("5 C01", "TLC-generated configurations (spec/DocConfig.tla, staged generator over 22 dimensions) encoded by the real code + TLC trace validation of the structural event stream with a pushdown acceptor (spec/RtfStream.tla)",
-         "The reduced product (exhaustive) and 500 (thorough 30 000) configurations drawn from the full product - three encoding paths, seven strategies, five header modes, 0..12 rows, component presence, as_table flags, placements, paper, nrow, attribute shapes, integer and half-point sizes, seven cell kinds, contiguous and non-contiguous group_by - are encoded; TLC runs the acceptor over every document's group/row/cell events: one top-level group starting with the signature, balance, nothing after the close, cell boundaries = cell contents, positive non-decreasing boundaries, no lexical error, and ValueError exactly for non-contiguous group_by."),
+         "All histories up to 1 (thorough 2) characters over font x size x character class x unit x dpi plus unsupported font/unit, 2 000 (thorough 100 000) simulated histories up to 14 characters and 2 500 (thorough 60 000) with homogeneous texts (all digits / capitals / blanks / one repeated character, closed by one other character): TLC checks zero/non-negative/monotone widths per appended character, number-vs-name equality, the monospace law, size scaling within 1 % (integer cross-multiplied), unit conversions within float rounding, and ValueError for unsupported arguments."),
+ "C01": ("5 C01", "TLC-generated configurations (spec/DocConfig.tla, staged generator over 26 dimensions) encoded by the real code + TLC trace validation of the structural event stream with a pushdown acceptor (spec/RtfStream.tla)",
+         "The reduced product (exhaustive) and 500 (thorough 30 000) configurations drawn from the full product - three encoding paths, seven strategies, five header modes, 0..12 rows, component presence, as_table flags, placements, paper, nrow, attribute shapes, integer and half-point sizes, eight cell kinds, every legal keyword of the enumerated cell options (vocab), key types and spellings of the grouping options, contiguous and non-contiguous group_by - are encoded; TLC runs the acceptor over every document's group/row/cell events: one top-level group starting with the signature, balance, nothing after the close, cell boundaries = cell contents, positive non-decreasing boundaries, no lexical error, and ValueError exactly for non-contiguous group_by."),
 }
 PENDING = {}
 
